@@ -40,7 +40,9 @@ DepthOfRow(R, e, fuel) ==
 
 InTree(e) == HostRow(e) \/ DevChild(e)
 
-DeviceParentOK(R) == \A k \in R : DevChild(k) => k.parent = k.link
+DeviceParentOK(R) == /\ \A k \in R : DevChild(k) => k.parent = k.link
+                     \* a device activity whose launch call is absent from the trace hangs beneath nothing
+                     /\ \A k \in R : (k.stream > 0 /\ k.link <= 0) => k.parent < 0
 DepthAgrees(R) == \A e \in R : InTree(e) => e.depth = DepthOfRow(R, e, Cardinality(R))
 HeightAgrees(R) == \A e \in R : InTree(e) => e.height = HeightOf(R, e, Cardinality(R))
 KEnd(k) == k.ts + k.dur
